@@ -8,14 +8,19 @@ the theorems hold for every horizon `H`, i.e. over an arbitrarily long prefix of
 iterator.  `StepsSpec N H l`: `l` is strictly increasing and `δ ∈ l ↔ 1 ≤ δ ≤ H ∧ N (δ-1) < N δ`.
 
 The full statement (for ALL well-formed arrival models) is FALSE for the code as it is:
-genuine defects were found by the failing proof obligations and are replayed on the real
-crate by the falsifier (findings F3, K1; counterexample theorems below).  A third finding,
-F2 (`Propagated::steps_iter` yielded the step 1 even if nothing arrives within the jitter),
-is FIXED in the Rust code ("fix: Propagated::steps_iter yields 1 only if the curve steps
-there"); the model follows the fix and the formerly failing instance is now proved exact
-(`propagated_over_nothing_exact`).  The proved statement `steps_exact_partial` carries the
-hypothesis `Arr.Exact` that excludes exactly the two remaining shapes — F3 (delta-min
-vectors ending in a plateau) and K1 (`ArrivalCurvePrefix` yields 0); nothing else is
+a genuine defect was found by the failing proof obligations and is replayed on the real
+crate by the falsifier (finding K1; counterexample theorem below).  Two further findings are
+FIXED in the Rust code and the model follows the fixes:
+F2 (`Propagated::steps_iter` yielded the step 1 even if nothing arrives within the jitter;
+"fix: Propagated::steps_iter yields 1 only if the curve steps there"; the formerly failing
+instance is now proved exact, `propagated_over_nothing_exact`) and
+F3 (for delta-min vectors ending in a plateau `steps_iter` missed the increases of
+`number_arrivals` at multiples of the largest distance; fixed in `Curve::number_arrivals`,
+which now splits `delta` into whole periods plus a remainder in `1 ..= last`; the formerly
+failing instance `[5, 10, 10]` and every well-formed delta-min vector are now proved exact,
+`plateau_ended_curve_exact`, `curve_exact`).  The proved statement `steps_exact_partial`
+carries the hypothesis `Arr.Exact` that excludes exactly the one remaining shape — K1
+(`ArrivalCurvePrefix` yields 0, unless filtered by a `Propagated`); nothing else is
 excluded. -/
 
 namespace RTA.C11
@@ -25,7 +30,7 @@ open RTA
 def StepsExactForAll : Prop :=
   ∀ (a : Arr), a.WF → ∀ H, StepsSpec a.N H (a.stepsUpTo H)
 
-/-- C11 (partial: all arrival models except the shapes of findings F3, K1):
+/-- C11 (partial: all arrival models except the shape of finding K1):
 strictly increasing, every yielded `δ ≥ 1`, and `δ` is yielded iff the bound increases at `δ` -/
 theorem steps_exact_partial (a : Arr) (hwf : a.WF) (hex : a.Exact) (H : Nat) :
     StepsSpec a.N H (a.stepsUpTo H) := Arr.steps_spec a hwf hex H
@@ -59,12 +64,17 @@ theorem steps_empty_of_no_arrivals (a : Arr) (hwf : a.WF) (hex : a.Exact) (H : N
     rw [hz, hz] at this
     omega
 
-/-- finding F3: a delta-min vector ending in a plateau -/
-theorem counterexample_F3 : ¬ StepsExactForAll := by
-  intro h
-  exact curve_steps_plateau_counterexample (by
-    have := h (.curve [5, 10, 10]) (by decide) 20
-    simpa [Arr.N, Arr.stepsUpTo] using this)
+/-- former finding F3 (fixed in the Rust code: `Curve::number_arrivals` takes the remainder
+in `1 ..= last`): a delta-min vector ending in a plateau now satisfies the steps Spec -/
+theorem plateau_ended_curve_exact :
+    StepsSpec (Arr.curve [5, 10, 10]).N 20 ((Arr.curve [5, 10, 10]).stepsUpTo 20) :=
+  Arr.steps_spec (.curve [5, 10, 10]) (by decide) (by simp only [Arr.Exact]) 20
+
+/-- the general fact behind it: `Curve::steps_iter` is exact for EVERY well-formed delta-min
+vector, plateau-ended or not (no `curveExact` side condition any more) -/
+theorem curve_exact (d : List Nat) (hwf : curveWF d) (H : Nat) :
+    StepsSpec (Arr.curve d).N H ((Arr.curve d).stepsUpTo H) :=
+  Arr.steps_spec (.curve d) (by simpa only [Arr.WF] using hwf) (by simp only [Arr.Exact]) H
 
 /-- former finding F2 (fixed in the Rust code: "fix: Propagated::steps_iter yields 1 only if
 the curve steps there"): `Propagated` over a model under which nothing ever arrives is now
@@ -115,7 +125,6 @@ theorem step_offsets_exact_partial (r : RB) (hwf : r.ArrWF) (hex : r.Exact) (L :
 example : (Arr.agg [.sporadic 7 9, .prop 4 (.curve [2, 5, 9]), .xcurve [0, 3]]).WF ∧
     (Arr.agg [.sporadic 7 9, .prop 4 (.curve [2, 5, 9]), .xcurve [0, 3]]).Exact := by
   refine ⟨by decide, ?_⟩
-  simp only [Arr.Exact, Arr.ExactList, Arr.Exact0, and_true, true_and]
-  decide
+  simp only [Arr.Exact, Arr.ExactList, Arr.Exact0, and_true]
 
 end RTA.C11
